@@ -33,6 +33,9 @@ Part 2, invalid input (spec/Reject.tla, spec/Reject_Trace.tla):
           endogenous / lagged / exogenous line, or a reserved token (same list without dir(math), k and
           the documented usable functions float max min sum pow abs round) on a right-hand side.
           Every name is used in every role; the TLC-generated sequences are rotated over the names.
+          Solver options are a dimension of the block world (spec variable opts): default, reduction
+          switched off by constructor argument, by attribute, switched on explicitly - invalid names
+          must be refused under all of them.
           world "model": Country / Sector / AddVariable calls on a real Model; invalid = duplicate
           country code, duplicate sector code, '__' in a local name, '__' in a sector code, a market
           without / with two candidate suppliers, a cash flow across currencies without ExternalSector;
@@ -145,12 +148,21 @@ def has_numbers(solver):
 
 def execute_block(beh, name):
     from sfc_models.equation_solver import EquationSolver
-    events = [{'ev': 'Begin', 'world': 'block'}]
+    opts = beh.get('opts', 'default')
+    events = [{'ev': 'Begin', 'world': 'block', 'opts': opts}]
     for d in beh['decls']:
         events.append({'ev': 'Declare', 'kind': d['kind'], 'valid': bool(d['valid']), 'raised': False,
                        'cand': 0, 'named': 0, 'rule': 'none'})
     text = block_text(beh['decls'], name)
-    s = EquationSolver()
+    # the solver options of the behaviour: reduction switched off / on by constructor argument or attribute
+    if opts == 'ctor_reduction_off':
+        s = EquationSolver(run_equation_reduction=False)
+    elif opts == 'ctor_reduction_on':
+        s = EquationSolver(run_equation_reduction=True)
+    else:
+        s = EquationSolver()
+        if opts == 'attr_reduction_off':
+            s.RunEquationReduction = False
     raised = False
     what = ''
     try:
@@ -201,7 +213,7 @@ def declare_market(m, c1, hh, cfg):
 def execute_model(beh, variant=0):
     from sfc_models.models import Model, Country
     from sfc_models.sector import Sector, Market
-    events = [{'ev': 'Begin', 'world': 'model'}]
+    events = [{'ev': 'Begin', 'world': 'model', 'opts': 'default'}]
     m = Model()
     c1 = Country(m, 'C1', 'C1')
     hh = Sector(c1, 'HH', 'HH')
@@ -273,7 +285,7 @@ def reject_for_tla(events):
     out = []
     for e in events:
         if e['ev'] == 'Begin':
-            out.append({'ev': 'Begin', 'world': e['world']})
+            out.append({'ev': 'Begin', 'world': e['world'], 'opts': e['opts']})
         elif e['ev'] == 'Declare':
             out.append({'ev': 'Declare', 'kind': e['kind'], 'valid': e['valid'], 'raised': e['raised'],
                         'cand': e['cand'], 'named': e['named'], 'rule': e['rule']})
@@ -297,14 +309,18 @@ def reject_items(rep, behs):
     rep.extra['reserved_rhs_tokens'] = len(rhs)
     by_kind = {}
     for b in behs:
-        by_kind.setdefault((b['world'], invalid_kind(b)), []).append(b)
+        by_kind.setdefault((b['world'], invalid_kind(b), b.get('opts', 'default')), []).append(b)
     items = []
-    per_name = 1 if rep.tier == 'quick' else 4
-    for (world, kind), bs in sorted(by_kind.items(), key=lambda x: (x[0][0], str(x[0][1]))):
+    per_name = 1 if rep.tier == 'quick' else 2
+    for oi, ((world, kind, opts), bs) in enumerate(sorted(by_kind.items(), key=lambda x: (x[0][0], str(x[0][1]), x[0][2]))):
         bs.sort(key=core.canonical)
         if world == 'block' and kind is not None:
             names = rhs if kind == 'reserved_rhs' else lhs
-            n = max(len(names) * per_name, len(bs))
+            # every name in every role under the default options; under each non-default solver option every
+            # name (thorough) / every third name, a different third per option and role (quick)
+            if opts != 'default' and rep.tier == 'quick':
+                names = names[oi % 3::3]
+            n = max(len(names) * per_name, len(bs) if opts == 'default' else 0)
             for j in range(n):
                 items.append({'behaviour': bs[(j * 7 + j // len(bs)) % len(bs)], 'name': names[j % len(names)],
                               'variant': 0})
@@ -332,6 +348,9 @@ def reject_signature(it, events):
     main = [e for e in events if e['ev'] == 'Main']
     how = 'numbers-produced' if (main and main[-1]['numbers']) else 'no-exception'
     if it['name'] is not None:
+        opts = it['behaviour'].get('opts', 'default')
+        if opts in ('ctor_reduction_off', 'attr_reduction_off'):
+            return 'invalid-accepted:reserved-name:%s:reduction-off' % how
         return 'invalid-accepted:%s:%s:%s' % (kind, pool_of(it['name']), how)
     return 'invalid-accepted:%s:%s' % (kind, how)
 
